@@ -1,5 +1,6 @@
 """Hypothesis driver shared by all checks: collect-then-shrink search, sharding,
 failure bucketing, known-finding matching, evidence, replay."""
+import copy
 import hashlib
 import json
 import multiprocessing
@@ -133,9 +134,14 @@ class Stats:
 
 def execute(check, case, stats, shard_seed=None, keep_sample=False):
     stats.evaluations += 1
+    pristine = case
     try:
+        # the code under test may modify what it is handed (that is itself a finding for C17):
+        # keep the generated case pristine for the replay file, the digest and the samples
+        case = copy.deepcopy(pristine)
         labels = check.run_case(case)
     except Violation as v:
+        case = pristine
         f = stats.failures.get(v.signature)
         if f is None:
             stats.failures[v.signature] = {
@@ -157,6 +163,7 @@ def execute(check, case, stats, shard_seed=None, keep_sample=False):
     except HarnessError:
         raise
     except Exception as e:  # bug in the harness / oracle: never a violation
+        case = pristine
         stats.harness_errors.append(
             {"error": "".join(traceback.format_exception(type(e), e, e.__traceback__))[-3000:],
              "case": tagged.enc(case)}
@@ -164,6 +171,7 @@ def execute(check, case, stats, shard_seed=None, keep_sample=False):
         if len(stats.harness_errors) >= 3:
             raise HarnessError("too many internal errors")
         return None
+    case = pristine
     labels = set(labels or ())
     for l in labels:
         stats.labels[l] = stats.labels.get(l, 0) + 1
@@ -258,9 +266,12 @@ def shrink_failure(check, tier, signature, failure, known, n_examples, budget_s)
     last = {}
 
     def body(case):
+        pristine = case
+        case = copy.deepcopy(case)
         try:
             check.run_case(case)
         except Violation as v:
+            case = pristine
             if v.signature == signature and not match_known(check, known, signature, tagged.enc(case), v.message):
                 last["case"] = tagged.enc(case)
                 last["message"] = v.message
